@@ -1310,6 +1310,13 @@ func (h *NtfnsHandler) resume(log bool, msg string, fields logging.LogFormat) {
 func (h *NtfnsHandler) getReadyWallets(rtx mwdb.ReadTransaction) (map[string]struct{}, error) {
 	readyWallets := make(map[string]struct{})
 	for _, name := range h.walletMgr.ksmgr.ListKeystoreNames() {
+		// a wallet that is being created or imported right now has its keystore
+		// registered before the transaction that writes its status record commits
+		if exists, err := h.walletMgr.syncStore.ExistsWalletStatus(rtx, name); err != nil {
+			return nil, err
+		} else if !exists {
+			continue
+		}
 		ws, err := h.walletMgr.syncStore.GetWalletStatus(rtx, name)
 		if err != nil {
 			return nil, err
